@@ -186,7 +186,7 @@ def main():
         o["k_used"] = [hex(v) for v in used]
         Q = g * d
         o["Q"] = [hex(Q[0]), hex(Q[1])]
-        if isinstance(sg2, tuple):
+        if isinstance(sg2, tuple) and cse.get("full", True):
             r, s = sg2
             Qo = g * ((d % (n - 1)) + 1)
             o["tamper"] = [[nm, call(lambda: g.verify(Qq, zz, (rr, ss)))]
